@@ -325,7 +325,13 @@ func staticRouting(f FileSpec, file *ast.File) error {
 			return fmt.Errorf("no New%sClient in the generated code", g)
 		}
 		clientPaths := map[string]string{}
+		implType := "" // the unexported implementation type the constructor returns (&xClient{…})
 		ast.Inspect(cc.Body, func(n ast.Node) bool {
+			if cl, ok := n.(*ast.CompositeLit); ok && implType == "" {
+				if id, ok := cl.Type.(*ast.Ident); ok {
+					implType = id.Name
+				}
+			}
 			if kv, ok := n.(*ast.KeyValueExpr); ok {
 				if call, ok := kv.Value.(*ast.CallExpr); ok && selName(call.Fun) == "NewClient" && len(call.Args) >= 2 {
 					p, _ := strLit(call.Args[1])
@@ -355,13 +361,14 @@ func staticRouting(f FileSpec, file *ast.File) error {
 			var cm *ast.FuncDecl
 			for name, fd := range funcs {
 				recv, meth, ok := strings.Cut(name, ".")
-				// the unexported implementation type (its exact spelling is the generator's business)
-				if ok && meth == gm && recv != g+"Client" && strings.EqualFold(strings.TrimLeft(recv, "_"), g+"Client") {
+				// methods of the implementation type the constructor returns
+				// (its spelling is the generator's business)
+				if ok && meth == gm && recv == implType {
 					cm = fd
 				}
 			}
 			if cm == nil {
-				return fmt.Errorf("no client method %s.%s", unexport(g)+"Client", gm)
+				return fmt.Errorf("no client method %s.%s (implementation type returned by New%sClient)", implType, gm, g)
 			}
 			wantCall := "Call" + kindOf(m) + "Stream"
 			if kindOf(m) == "Unary" {
